@@ -372,7 +372,9 @@ def extract_values(h, art, workdir, failed, cap_t, cap_mem):
     if art["unwind"] is not None:
         cb += ["--unwind", str(art["unwind"])]
     cb += h.get("cbmc", [])
-    cb += ["--sat-solver", "cadical", "--slice-formula", out, "--trace", "--json-ui", "--property", pick["pid"]]
+    # no --slice-formula here: slicing drops the assignments of vany() values that do not influence the failed
+    # property from the trace, and the native replay needs every value in call order
+    cb += ["--sat-solver", "cadical", out, "--trace", "--json-ui", "--property", pick["pid"]]
     jpath = os.path.join(workdir, name + ".trace.json")
     rc, to, _ = run_stage(name + "#trace", cb, jpath, cap_t, cap_mem)
     try:
@@ -508,7 +510,15 @@ def main():
     random.Random(seed).shuffle(hs)
     hs.sort(key=lambda h: -(h["cap"] or 0))
 
-    workdir = os.path.join(TARGET, "work", prop + "-" + a.tier)
+    # one work dir per invocation (concurrent runs of the same property must not share files);
+    # stale dirs of finished invocations are pruned
+    wroot = os.path.join(TARGET, "work")
+    os.makedirs(wroot, exist_ok=True)
+    for d in os.listdir(wroot):
+        m = re.match(r".*-(\d+)$", d)
+        if m and not os.path.exists(f"/proc/{m.group(1)}") and d.startswith(prop + "-" + a.tier):
+            shutil.rmtree(os.path.join(wroot, d), ignore_errors=True)
+    workdir = os.path.join(wroot, f"{prop}-{a.tier}-{os.getpid()}")
     shutil.rmtree(workdir, ignore_errors=True)
     os.makedirs(workdir)
     log(f"[{prop}] tier={a.tier} harnesses={len(hs)} features={features} jobs={a.jobs}")
